@@ -125,10 +125,16 @@ func (s *busSys) setSilence(i int, pad int) {
 	s.made["sil/"+sil.Id] = fmt.Sprintf("silence #%d made on n%d (comment %d bytes)", s.seq, i, pad)
 }
 
-func (s *busSys) logNf(i int) {
+func (s *busSys) logNf(i int, nAlerts ...int) {
 	s.seq++
 	gk := fmt.Sprintf("{}:{g=\"%d\"}", s.seq)
-	if err := s.nodes[i].nfl.Log(&nflogpb.Receiver{GroupName: "r", Integration: "webhook", Idx: 0}, gk, []uint64{uint64(s.seq)}, nil, nil, 0); err != nil {
+	firing := []uint64{uint64(s.seq)}
+	if len(nAlerts) > 0 { // a large group: the encoded entry is bigger than the gossip threshold
+		for k := 1; k < nAlerts[0]; k++ {
+			firing = append(firing, uint64(s.seq)*0x9e3779b97f4a7c15+uint64(k))
+		}
+	}
+	if err := s.nodes[i].nfl.Log(&nflogpb.Receiver{GroupName: "r", Integration: "webhook", Idx: 0}, gk, firing, nil, nil, 0); err != nil {
 		panic(err)
 	}
 	s.nfKeys[gk] = true
@@ -164,6 +170,7 @@ var c19Alphabet = []string{
 	"push/pull n0 <-> n1", "push/pull n1 <-> n2", "fresh node joins (push/pull with n0)",
 	"garbage to n1: truncated broadcast", "garbage to n1: bit-flipped broadcast", "garbage to n1: unknown state key", "garbage to n1: empty payload",
 	"garbage push/pull to n1: malformed 'sil' part followed by a valid 'nfl' part", "garbage push/pull to n1: unknown key part followed by valid parts",
+	"n0: nflog entry for a group of 200 alerts (oversized)",
 }
 
 func c19Run(t *testing.T, h []int) (res seqx.Result) {
@@ -250,6 +257,8 @@ func c19Run(t *testing.T, h []int) (res seqx.Result) {
 				s.pushPull(0, 1)
 			case 16:
 				s.pushPull(1, 2)
+			case 24:
+				s.logNf(0, 200)
 			case 17:
 				if len(s.nodes) > 3 {
 					res.Skip = true
@@ -367,10 +376,12 @@ func c19Run(t *testing.T, h []int) (res seqx.Result) {
 		for k := range s.linkOK {
 			s.linkOK[k] = true
 		}
+		closeSeq := s.seq
 		for i := 0; i < 3; i++ {
 			s.setSilence(i, 10)
 			s.setSilence(i, 900+350*i) // 900B, 1250B and 1600B: the last one would not even fit a gossip packet
 			s.logNf(i)
+			s.logNf(i, 120+60*i) // log entries of large groups: oversized as well
 		}
 		all := []int{0, 1, 2, 3}
 		for round := 0; round < 40; round++ {
@@ -426,6 +437,16 @@ func c19Run(t *testing.T, h []int) (res seqx.Result) {
 				}
 			}
 		}
+		for i, n := range s.nodes {
+			for gk := range s.nfKeys {
+				num := 0
+				fmt.Sscanf(gk, "{}:{g=\"%d\"}", &num)
+				if num > closeSeq && num < 1000 && !n.hasNf(gk) { // made in the closing phase (scratch nodes count from 1000)
+					missing = append(missing, fmt.Sprintf("n%d lacks nflog entry %s", i, gk))
+				}
+			}
+		}
+		sort.Strings(missing)
 		if len(missing) > 0 {
 			res.Viol = "update-not-delivered-to-connected-peer"
 			res.Desc = fmt.Sprintf("after the history, with all links up, fresh updates were broadcast and gossip ran until the queues were empty, yet: %s", strings.Join(missing[:min(4, len(missing))], "; "))
